@@ -91,7 +91,7 @@ def _worker_run(chunk):
 def run_in_env(modname, mod, case):
     """Run one case in-process, or in a fresh spawn child when the case names a special environment."""
     env = getattr(mod, 'ENVS', {}).get(case.get('env')) if isinstance(case, dict) else None
-    if env is None and not getattr(mod, 'ISOLATE_REPRO', False):
+    if env is None and not getattr(mod, 'ISOLATE_REPRO', True):
         return _safe_run(mod, case)
     env = env or {}
     from concurrent.futures import ProcessPoolExecutor
@@ -217,10 +217,16 @@ def main(modname, argv=None):
         def mkpool(env, n):
             return ProcessPoolExecutor(n, mp_context=ctx, initializer=_worker_init, initargs=(modname, env))
 
+        abort = threading.Event()   # set once a crashing case has been pinned down: verdict is already "violation"
+
         def isolate(env, chs):
-            """Re-run chunks one by one, then case by case, in single-use children; record crashes."""
+            """Re-run lost chunks one by one, then case by case, in single-use children, until one crashing case is found."""
             found = 0
             for ch in chs:
+                if found or abort.is_set():
+                    with lock:
+                        agg.extra['cases_not_run_after_crash'] = agg.extra.get('cases_not_run_after_crash', 0) + len(ch)
+                    continue
                 ex = mkpool(env, 1)
                 try:
                     res = ex.submit(_worker_run, ch).result()
@@ -232,6 +238,8 @@ def main(modname, argv=None):
                 except BrokenProcessPool:
                     pass
                 for case in ch:
+                    if found:
+                        break
                     ex = mkpool(env, 1)
                     try:
                         res = ex.submit(_worker_run, [case]).result()
@@ -241,6 +249,7 @@ def main(modname, argv=None):
                         r = dict(problems=[dict(sig='crash:' + (mod.crash_sig(case) if hasattr(mod, 'crash_sig') else 'worker-died'),
                                                 msg='the worker process running this case died (memory corruption / abort)')])
                         found += 1
+                        abort.set()
                     with lock:
                         agg.add(case, r)
             return found
@@ -253,6 +262,8 @@ def main(modname, argv=None):
                 broken = False
                 done_iter = False
                 while True:
+                    if abort.is_set():
+                        done_iter = True
                     while not done_iter and not broken and len(pending) < 3 * per:
                         try:
                             ch = next(g)
@@ -318,7 +329,7 @@ def main(modname, argv=None):
         if sig in seen_sig:
             continue
         # believe a failure only if it reproduces in this (fresh) process
-        if not case.get('finalize') and not getattr(mod, 'NO_REPRO', False):
+        if not case.get('finalize') and not case.get('crash') and not getattr(mod, 'NO_REPRO', False) and not sig.startswith('crash:'):
             r2 = run_in_env(modname, mod, case)
             if not any(q['sig'] == sig for q in r2['problems']):
                 flaky.append((case, p))
@@ -344,7 +355,7 @@ def main(modname, argv=None):
     wall = time.time() - t0
     cov = dict(
         evaluations=agg.evals, distinct_nontrivial=len(agg.nt), rule=mod.RULE,
-        samples=agg.samples or [None], exhaustive=capped is None, cases=agg.cases,
+        samples=agg.samples or [None], exhaustive=(capped is None and not agg.extra.get('cases_not_run_after_crash') and not any(s.startswith('crash:') for s in agg.sig_count)), cases=agg.cases,
         failing_cases=agg.fail_count, known_findings=sorted(known_hit),
     )
     if mod.LEVEL == 'model_checking':
